@@ -75,6 +75,12 @@ func dotIndex(path string) bool {
 // arithmetic; passed to functions and printed)
 var boundaryPaths = []string{"umax", "u63", "imax", "imin", "u32", "fbig", "negz"}
 
+// text beyond ASCII
+var (
+	nonASCIIPaths = []string{"nz", "nj", "ni", "nq", "nm", "nc", `errs['città']`, `errs["ключ"]`, `errs['東']`}
+	nonASCIILits  = []string{"Zoë", "東京", "İstanbul", "straße", "😀x", "e\u0301t", "Zürich", "é", "ß", "ключ"}
+)
+
 var (
 	blankPaths  = []string{"sp", "sp2", "spl", "spt"}
 	blankLits   = []string{"a b", "a  b", "a   b", " a b", "  a b", "a b ", "a b  ", " a  b", "a  b ", "a\tb"}
@@ -159,6 +165,8 @@ func envOf0(id int) map[string]any {
 		"big": int64(1234567),
 		// a value with a String method (printed through it, whatever way the data is delivered)
 		"sv": Tag{Key: "k" + r.who, N: r.k},
+		// text beyond ASCII: 2-, 3- and 4-byte characters, dotted capital I, sharp s, a combining mark
+		"nz": []string{"Zoë", "東京", "İstanbul"}[id%nEnvs], "nj": "東京", "ni": "İstanbul", "nq": "straße", "nm": "😀x", "nc": "e\u0301t",
 		// magnitude boundaries
 		"umax": uint64(math.MaxUint64), "u63": uint64(1) << 63, "imax": int64(math.MaxInt64), "imin": int64(math.MinInt64), "u32": uint32(math.MaxUint32),
 		"fbig": 1e21, "negz": math.Copysign(0, -1),
@@ -169,7 +177,7 @@ func envOf0(id int) map[string]any {
 			// hyphenated keys (only vuego's own path walker reads m.first-name as a path)
 			"first-name": r.who, "item-count": r.z + r.k, "sub-map": map[string]any{"deep-key": r.deep, "n": r.inx}},
 		// map keys that need a quoted bracket step: form-field style names, dots, blanks, quotes
-		"errs": map[string]any{"user[email]": r.name, "tags[]": r.deep, "a.b": r.s, "two words": r.who, "it's": r.h, `say "hi"`: "q" + r.num, "[": r.e, "]": "close",
+		"errs": map[string]any{"user[email]": r.name, "tags[]": r.deep, "a.b": r.s, "two words": r.who, "it's": r.h, "città": "Zürich", "ключ": r.who, "東": "é" + r.name, `say "hi"`: "q" + r.num, "[": r.e, "]": "close",
 			"item[0][id]": r.k, "ok[]": r.ok,
 			"sub[x]": map[string]any{"n": r.x, "s": r.deep, "k.e-y": r.who}},
 		// hyphenated root names (docs/components.md: {{ cta-text }}), truthy and falsy
@@ -189,7 +197,7 @@ func envOf0(id int) map[string]any {
 var (
 	intPaths    = []string{"a", "b", "z", "n", "m.k", `m["k"]`, `m['k']`, "m.inner.x", `m["inner"].x`, "xs[0]", "xs[2]", "st.Age", "st.In.X", "us[0].age", "us[1].age", "rs[0].Age", "sv.N", "xs[ix]", "m[kx]", "us[ix].age", `errs['item[0][id]']`, `errs["item[0][id]"]`, `errs['sub[x]'].n`, `errs["sub[x]"]["n"]`}
 	floatPaths  = []string{"f", "g", "zf", "m.rate", `m['rate']`, "fs[0]", "fs[1]", "st.Score", "rs[0].Score"}
-	stringPaths = []string{"s", "h", "e", "num", "m.name", `m["name"]`, `m['name']`, "m.inner.s", "ss[0]", "ss[1]", "st.Name", "st.In.S", "us[0].name", "us[1].name", "rs[0].Name", "sv.Key", "sp", "sp2", "spl", "spt", "ss[ix]", "m[kk]", "us[ix].name",
+	stringPaths = []string{"s", "h", "e", "num", "m.name", `m["name"]`, `m['name']`, "m.inner.s", "ss[0]", "ss[1]", "st.Name", "st.In.S", "us[0].name", "us[1].name", "rs[0].Name", "sv.Key", "nz", "nj", "ni", "nq", "nm", "nc", `errs['città']`, `errs["ключ"]`, `errs['東']`, "sp", "sp2", "spl", "spt", "ss[ix]", "m[kk]", "us[ix].name",
 		`errs['user[email]']`, `errs["user[email]"]`, `errs['tags[]']`, `errs["tags[]"]`, `errs['a.b']`, `errs["a.b"]`, `errs['two words']`, `errs["it's"]`, `errs['say "hi"']`, `errs['[']`, `errs["]"]`, `errs['sub[x]'].s`, `errs["sub[x]"]['k.e-y']`, `errs['sub[x]']["s"]`}
 	boolPaths = []string{"t", "u", "off", "m.ok", `m["ok"]`, "bs[0]", "bs[1]", "st.Ok", "us[0].admin", "us[1].admin", "rs[0].Ok", "bs[ix]", "m[kb]", `errs['ok[]']`, `errs["ok[]"]`}
 	listPaths = []string{"xs", "ss", "fs", "bs"}
